@@ -53,7 +53,8 @@ impl Default for CurveSpec {
 
 #[derive(Clone, Debug, Serialize, Deserialize, PartialEq)]
 pub struct OracleSpec {
-    /// 0 = Fixed, 1 = Pyth push, 2 = Switchboard pull
+    /// 0 = Fixed, 1 = Pyth push, 2 = Switchboard pull, 3 = staked (the group's SOL Pyth push feed scaled by the
+    /// LST rate of the bank's single-validator pool, see `BankSpec::staked`)
     pub kind: u8,
     /// price = mant * 10^expo ; conf likewise
     pub mant: i64,
@@ -82,6 +83,14 @@ pub struct EmodeEntrySpec {
     pub maint: u32,
 }
 
+/// A staked-collateral bank (asset tag STAKED, created through `lending_pool_add_bank_permissionless`): the LST
+/// mint's supply and the single-validator pool's delegated stake (lamports, includes the pool's own 1 SOL).
+#[derive(Clone, Debug, Serialize, Deserialize, PartialEq)]
+pub struct StakedSpec {
+    pub supply: u64,
+    pub stake: u64,
+}
+
 #[derive(Clone, Debug, Serialize, Deserialize, PartialEq)]
 pub struct BankSpec {
     pub decimals: u8,
@@ -107,6 +116,11 @@ pub struct BankSpec {
     /// 0 Paused, 1 Operational, 2 ReduceOnly
     pub op_state: u8,
     pub permissionless_bad_debt: bool,
+    /// Some = staked-collateral bank: `oracle` must be kind 3 (it describes the group's SOL feed, shared by all
+    /// staked banks of the group); weights / limits / max age of the FIRST staked bank become the group's staked
+    /// settings; decimals are 9, the mint is the pool's SPL LST mint
+    #[serde(default)]
+    pub staked: Option<StakedSpec>,
 }
 impl Default for BankSpec {
     fn default() -> Self {
@@ -130,6 +144,7 @@ impl Default for BankSpec {
             asset_tag: 0,
             op_state: 1,
             permissionless_bad_debt: false,
+            staked: None,
         }
     }
 }
@@ -179,6 +194,8 @@ pub struct BankInfo {
     pub decimals: u8,
     pub oracle_kind: u8,
     pub oracle_key: Pubkey,
+    /// further oracle accounts after `oracle_key` (staked banks: LST mint, SOL pool)
+    pub oracle_extra: Vec<Pubkey>,
     pub lv: Pubkey,
     pub lv_auth: Pubkey,
     pub iv: Pubkey,
@@ -243,6 +260,34 @@ pub fn spl_mint_acct(decimals: u8) -> Acct {
     let mut md = vec![0u8; spl_token::state::Mint::LEN];
     spl_token::state::Mint { is_initialized: true, decimals, supply: 0, ..Default::default() }.pack_into_slice(&mut md);
     Acct { lamports: 1_000_000_000, data: md, owner: spl_token::ID, executable: false }
+}
+
+/// SPL-Token mint of the LST of a single-validator pool (9 decimals) with the given supply
+pub fn lst_mint_acct(supply: u64) -> Acct {
+    let mut md = vec![0u8; spl_token::state::Mint::LEN];
+    spl_token::state::Mint { is_initialized: true, decimals: 9, supply, ..Default::default() }.pack_into_slice(&mut md);
+    Acct { lamports: 1_000_000_000, data: md, owner: spl_token::ID, executable: false }
+}
+
+/// Native stake account in state `StakeStateV2::Stake` with `delegation.stake = delegated` (bincode layout, 200 bytes)
+pub fn stake_acct(delegated: u64) -> Acct {
+    let mut d = Vec::with_capacity(200);
+    d.extend_from_slice(&2u32.to_le_bytes()); // StakeStateV2::Stake
+    d.extend_from_slice(&2_282_880u64.to_le_bytes()); // meta.rent_exempt_reserve
+    d.extend_from_slice(&[7u8; 32]); // authorized.staker
+    d.extend_from_slice(&[8u8; 32]); // authorized.withdrawer
+    d.extend_from_slice(&0i64.to_le_bytes()); // lockup.unix_timestamp
+    d.extend_from_slice(&0u64.to_le_bytes()); // lockup.epoch
+    d.extend_from_slice(&[0u8; 32]); // lockup.custodian
+    d.extend_from_slice(&[9u8; 32]); // delegation.voter_pubkey
+    d.extend_from_slice(&delegated.to_le_bytes()); // delegation.stake
+    d.extend_from_slice(&0u64.to_le_bytes()); // activation_epoch
+    d.extend_from_slice(&u64::MAX.to_le_bytes()); // deactivation_epoch
+    d.extend_from_slice(&0.25f64.to_le_bytes()); // warmup_cooldown_rate (deprecated)
+    d.extend_from_slice(&0u64.to_le_bytes()); // credits_observed
+    d.push(0); // stake flags
+    d.resize(200, 0);
+    Acct { lamports: delegated.saturating_add(2_282_880), data: d, owner: marginfi::constants::NATIVE_STAKE_ID, executable: false }
 }
 
 pub fn spl_token_acct(mint: Pubkey, owner: Pubkey, amount: u64) -> Acct {
@@ -357,7 +402,7 @@ impl OracleSpec {
     /// account for kinds 1/2 at time t
     pub fn account(&self, t: i64) -> Option<Acct> {
         match self.kind {
-            1 => Some(pyth_acct(self.mant, self.conf, self.expo, self.ema_mant, self.ema_conf, t)),
+            1 | 3 => Some(pyth_acct(self.mant, self.conf, self.expo, self.ema_mant, self.ema_conf, t)),
             2 => {
                 // value = mant * 10^(expo+18)
                 let sh = self.expo + 18;
@@ -538,6 +583,9 @@ impl World {
     }
 
     pub fn add_bank(&mut self, i: usize, b: &BankSpec) -> Result<(), String> {
+        if b.staked.is_some() {
+            return self.add_staked_bank(i, b);
+        }
         let mint = kp("mint", i as u64);
         let token_program = if b.token == 0 { spl_token::ID } else { spl_token_2022::ID };
         match b.token {
@@ -553,6 +601,7 @@ impl World {
             decimals: b.decimals,
             oracle_kind: b.oracle.kind,
             oracle_key: kp("oracle", i as u64),
+            oracle_extra: vec![],
             lv: bank_pda("liquidity_vault", &bank),
             lv_auth: bank_pda("liquidity_vault_auth", &bank),
             iv: bank_pda("insurance_vault", &bank),
@@ -623,6 +672,118 @@ impl World {
         Ok(())
     }
 
+
+    pub fn staked_settings_key(&self) -> Pubkey {
+        Pubkey::find_program_address(&[b"staked_settings", self.group.as_ref()], &marginfi::ID).0
+    }
+    pub fn staked_feed_key(&self) -> Pubkey {
+        kp("staked_sol_feed", 0)
+    }
+
+    /// A staked-collateral bank through the real instructions: `init_staked_settings` (first staked bank only)
+    /// and `lending_pool_add_bank_permissionless`, with fabricated spl-single-pool accounts (stake pool owned by
+    /// the single-pool program, LST mint and SOL pool at their PDAs, the SOL pool a native stake account in
+    /// state Stake) and the group's SOL Pyth feed.
+    pub fn add_staked_bank(&mut self, i: usize, b: &BankSpec) -> Result<(), String> {
+        use marginfi::instructions::marginfi_group::StakedSettingsConfig;
+        use marginfi_type_crate::types::RiskTier;
+        let st = b.staked.clone().unwrap();
+        let sp_id = marginfi::constants::SPL_SINGLE_POOL_ID;
+        let admin = self.roles.admin;
+        let feed = self.staked_feed_key();
+        let now = self.vm.now();
+        let mut o = b.oracle.clone();
+        o.kind = 3;
+        self.vm.set(feed, o.account(now).unwrap());
+        let settings = self.staked_settings_key();
+        if self.vm.get(&settings).is_none() {
+            let ix = mfi_ix(
+                marginfi::accounts::InitStakedSettings { marginfi_group: self.group, admin, fee_payer: admin, staked_settings: settings, system_program: system_program::ID }.to_account_metas(Some(true)),
+                marginfi::instruction::InitStakedSettings {
+                    settings: StakedSettingsConfig {
+                        oracle: feed,
+                        asset_weight_init: w_mill(b.aw_i),
+                        asset_weight_maint: w_mill(b.aw_m),
+                        deposit_limit: b.deposit_limit,
+                        total_asset_value_init_limit: b.init_limit,
+                        oracle_max_age: b.oracle.max_age,
+                        risk_tier: if b.isolated { RiskTier::Isolated } else { RiskTier::Collateral },
+                    },
+                }
+                .data(),
+            );
+            self.vm.exec(&ix).map_err(|e| format!("init_staked_settings: {e:?}"))?;
+        }
+        let stake_pool = kp("stake_pool", i as u64);
+        self.vm.set(stake_pool, Acct { lamports: 1_000_000_000, data: vec![0u8; 64], owner: sp_id, executable: false });
+        let mint = Pubkey::find_program_address(&[b"mint", stake_pool.as_ref()], &sp_id).0;
+        let sol_pool = Pubkey::find_program_address(&[b"stake", stake_pool.as_ref()], &sp_id).0;
+        self.vm.set(mint, lst_mint_acct(st.supply));
+        self.vm.set(sol_pool, stake_acct(st.stake));
+        let seed = i as u64;
+        let bank = Pubkey::find_program_address(&[self.group.as_ref(), mint.as_ref(), &seed.to_le_bytes()], &marginfi::ID).0;
+        let mut spec = b.clone();
+        spec.oracle = o;
+        spec.decimals = 9;
+        spec.token = 0;
+        spec.asset_tag = 2;
+        let info = BankInfo {
+            key: bank,
+            mint,
+            token_program: spl_token::ID,
+            decimals: 9,
+            oracle_kind: 3,
+            oracle_key: feed,
+            oracle_extra: vec![mint, sol_pool],
+            lv: bank_pda("liquidity_vault", &bank),
+            lv_auth: bank_pda("liquidity_vault_auth", &bank),
+            iv: bank_pda("insurance_vault", &bank),
+            iv_auth: bank_pda("insurance_vault_auth", &bank),
+            fv: bank_pda("fee_vault", &bank),
+            fv_auth: bank_pda("fee_vault_auth", &bank),
+            fee_ata: ata(&self.fee_wallet, &mint, &spl_token::ID),
+            spec,
+        };
+        let ata_acct = self.make_token_acct(&info, self.fee_wallet, 0);
+        self.vm.set(info.fee_ata, ata_acct);
+        let payer = self.roles.stranger;
+        let mut m = marginfi::accounts::LendingPoolAddBankPermissionless {
+            marginfi_group: self.group,
+            staked_settings: settings,
+            fee_payer: payer,
+            bank_mint: mint,
+            sol_pool,
+            stake_pool,
+            bank,
+            liquidity_vault_authority: info.lv_auth,
+            liquidity_vault: info.lv,
+            insurance_vault_authority: info.iv_auth,
+            insurance_vault: info.iv,
+            fee_vault_authority: info.fv_auth,
+            fee_vault: info.fv,
+            token_program: spl_token::ID,
+            system_program: system_program::ID,
+        }
+        .to_account_metas(Some(true));
+        m.push(AccountMeta::new_readonly(feed, false));
+        m.push(AccountMeta::new_readonly(mint, false));
+        m.push(AccountMeta::new_readonly(sol_pool, false));
+        let ix = mfi_ix(m, marginfi::instruction::LendingPoolAddBankPermissionless { bank_seed: seed }.data());
+        self.vm.exec(&ix).map_err(|e| format!("add_bank_permissionless {i}: {e:?}"))?;
+        self.banks.push(info);
+        Ok(())
+    }
+
+    /// change the LST rate of staked bank i (supply of the LST mint, delegated stake of the SOL pool)
+    pub fn set_staked_rate(&mut self, i: usize, supply: u64, stake: u64) {
+        if self.banks[i].oracle_extra.len() == 2 {
+            let (mint, pool) = (self.banks[i].oracle_extra[0], self.banks[i].oracle_extra[1]);
+            self.vm.set(mint, lst_mint_acct(supply));
+            self.vm.set(pool, stake_acct(stake));
+            self.banks[i].spec.staked = Some(StakedSpec { supply, stake });
+        }
+    }
+
     pub fn make_token_acct(&self, b: &BankInfo, owner: Pubkey, amount: u64) -> Acct {
         if b.token_program == spl_token::ID {
             spl_token_acct(b.mint, owner, amount)
@@ -690,6 +851,14 @@ impl World {
             _ => {
                 let now = self.vm.now();
                 self.vm.set(self.banks[i].oracle_key, o.account(now).unwrap());
+                if o.kind == 3 {
+                    // all staked banks of the group read the same SOL feed
+                    for b in self.banks.iter_mut() {
+                        if b.oracle_kind == 3 {
+                            b.spec.oracle = o.clone();
+                        }
+                    }
+                }
                 Ok(())
             }
         }
@@ -701,6 +870,9 @@ impl World {
         if let Some(i) = self.bank_index(bank_key) {
             if self.banks[i].oracle_kind != 0 {
                 out.push(AccountMeta::new_readonly(self.banks[i].oracle_key, false));
+                for k in &self.banks[i].oracle_extra {
+                    out.push(AccountMeta::new_readonly(*k, false));
+                }
             }
         } else {
             // unknown bank (e.g. created later): read its config
@@ -975,11 +1147,13 @@ impl World {
         }
         .to_account_metas(Some(true));
         self.mint_meta(liab, &mut m);
-        if ab.oracle_kind != 0 {
-            m.push(AccountMeta::new_readonly(ab.oracle_key, false));
-        }
-        if lb.oracle_kind != 0 {
-            m.push(AccountMeta::new_readonly(lb.oracle_key, false));
+        for x in [ab, lb] {
+            if x.oracle_kind != 0 {
+                m.push(AccountMeta::new_readonly(x.oracle_key, false));
+                for k in &x.oracle_extra {
+                    m.push(AccountMeta::new_readonly(*k, false));
+                }
+            }
         }
         // liquidator ends up with positions in both banks
         let mut lr = {
